@@ -209,9 +209,10 @@ def processLine (c : Cli) : Except String Int × Cli :=
     if buf.length > 4 then
       let text := buf.drop 4 ++ [10]
       let c := { c with cs := cs' }
-      if num == 103 || num == 104 || num == 105 then (.ok num, c)
-      else if num == 309 then (.ok num, { c with errs := c.errs ++ text })
-      else (.ok num, { c with out := c.out ++ text })
+      -- the function returns `int`: the `long` is truncated on return (`_suppress` and `getstream` see the `long`)
+      if num == 103 || num == 104 || num == 105 then (.ok (toInt32 num), c)
+      else if num == 309 then (.ok (toInt32 num), { c with errs := c.errs ++ text })
+      else (.ok (toInt32 num), { c with out := c.out ++ text })
     else (.error "powerman: unexpected response from server\n", { c with cs := cs' })
 
 /-- `_process_response`: lines until a 1xx/2xx one; result `res` = the 2xx code or 0 -/
